@@ -7,28 +7,27 @@ open AwsVerif.ThreadSched
 
 variable {progs : List (List Op)} {s s' : Sys} {i : Nat} {c c' : Client}
 
-theorem pendAll_set (hci : s.clients[i]? = some c) (hcl : s'.clients = s.clients.set i c') (a : Task) :
-    (pendAll s').count a + (pend c).count a = (pendAll s).count a + (pend c').count a := by
-  unfold pendAll; rw [hcl]; exact count_flatMap_set pend a hci
+theorem clientPend_set (hci : s.clients[i]? = some c) (hcl : s'.clients = s.clients.set i c') (a : Task) :
+    (clientPend s').count a + (pend c).count a = (clientPend s).count a + (pend c').count a := by
+  unfold clientPend; rw [hcl]; exact count_flatMap_set pend a hci
 
-theorem InvT.frameClient' (h : InvT progs s) (hci : s.clients[i]? = some c)
-    (hp : ∀ a, (places s').count a = (places s).count a) (hs : s'.scheduled = s.scheduled) (hcl : s'.clients = s.clients.set i c')
-    (hpend : pend c' = pend c)
+/-- a client step that pushes nothing and invokes nothing -/
+theorem InvP.frameClient (h : InvP progs s) (hci : s.clients[i]? = some c)
+    (hs : s'.scheduled = s.scheduled) (hcl : s'.clients = s.clients.set i c') (hpend : pend c' = pend c)
+    (hpp : pcPendS s'.st = pcPendS s.st) (hcbs : s'.cbs = s.cbs) (hl : s'.log = s.log) : InvP progs s' :=
+  h.frame hs (fun a => by have := clientPend_set hci hcl a; rw [hpend] at this; omega) hpp hcbs hl
+
+theorem InvT.frame' (h : InvT s)
+    (hp : ∀ a, (places s').count a = (places s).count a) (hs : s'.scheduled = s.scheduled)
     (hi : s'.inner = s.inner) (ht : s'.tsOf = s.tsOf) (hl : s'.log = s.log)
-    (hlo : ∀ e ∈ s.log, logOk s e → logOk s' e) : InvT progs s' := by
-  refine ⟨h.wf1, ?_, ?_, ?_, ?_, ?_⟩
+    (hlo : ∀ e ∈ s.log, logOk s e → logOk s' e) (hclock : s.clock ≤ s'.clock)
+    (hex : s'.st.pc ≠ .exited → s.st.pc ≠ .exited) : InvT s' := by
+  refine ⟨?_, ?_, ?_, ?_, ?_⟩
   · intro t; rw [hp t, hs]; exact h.cntPlaces t
-  · intro t; have := pendAll_set hci hcl t; rw [hpend] at this; rw [hs]; have := h.cntSched t; omega
   · intro t; unfold innerTasks; rw [hi]; exact h.flagInv t
   · intro t ht'; rw [hi] at ht'; rw [ht]; exact h.asapTs t ht'
   · intro e he; rw [hl] at he; exact hlo e he (h.logInv e he)
-
-theorem InvT.frameClient (h : InvT progs s) (hci : s.clients[i]? = some c)
-    (hp : places s' = places s) (hs : s'.scheduled = s.scheduled) (hcl : s'.clients = s.clients.set i c')
-    (hpend : pend c' = pend c)
-    (hi : s'.inner = s.inner) (ht : s'.tsOf = s.tsOf) (hl : s'.log = s.log)
-    (hd : s'.destroyer = s.destroyer) : InvT progs s' :=
-  h.frameClient' hci (fun a => by rw [hp]) hs hcl hpend hi ht hl (fun e _ he => by unfold logOk at *; rw [hd, ht]; exact he)
+  · intro hne t ht'; rw [hi] at ht'; rw [ht]; have := h.runTs (hex hne) t ht'; omega
 
 theorem InvM.frameClient (h : InvM s) (hci : s.clients[i]? = some c)
     (hcl : s'.clients = s.clients.set i c') (hclock : s'.clock = s.clock)
@@ -78,9 +77,11 @@ theorem InvR.frameNormal (h : InvR s) (hci : s.clients[i]? = some c) (hheld : 1 
     (hcl : s'.clients = s.clients.set i c') (hsum : s'.refCount + c.held = s.refCount + c'.held)
     (hnd : inDestroy c'.pc = false) (hw : cwfOk c')
     (hd : s'.destroyer = s.destroyer) (hrel : s'.released = s.released) (hse : s'.shouldExit = s.shouldExit)
-    (hpc : s'.st.pc = .exited → s.st.pc = .exited) : InvR s' := by
+    (hpc : s'.st.pc = .exited → s.st.pc = .exited)
+    (hrp : runningPhase s'.st.pc = runningPhase s.st.pc) (hir : s'.inner.running = s.inner.running)
+    (hsw : s'.sweeping = s.sweeping) (hmis : s'.misuse = s.misuse) : InvR s' := by
   have hnone := h.noDestroyer hci hheld
-  refine ⟨?_, ?_, ?_, ?_, ?_, ?_, ?_, ?_⟩
+  refine ⟨?_, ?_, ?_, ?_, ?_, ?_, ?_, ?_, ?_, ?_, ?_⟩
   · have := sum_map_set (·.held) (a := c') hci
     have := h.refSum
     rw [hcl]; omega
@@ -98,6 +99,9 @@ theorem InvR.frameNormal (h : InvR s) (hci : s.clients[i]? = some c) (hheld : 1 
   · intro hr; rw [hrel] at hr; exact absurd hnone (h.relD hr)
   · rw [hse, hd]
     refine ⟨fun he => h.exitFlag.1 (hpc he), h.exitFlag.2⟩
+  · rw [hrp, hsw, hir]; exact h.runInv
+  · rw [hsw, hd]; exact h.sweepD
+  · rw [hmis, hd]; exact h.misuseD
 
 theorem cpyOk_wake (s : Sys) (h : cpyOk s.st) : cpyOk (wake s).st := by
   unfold wake; split
@@ -114,12 +118,13 @@ theorem inv_lock (h : Inv progs s) {c : Client} (hci : s.clients[i]? = some c) (
   have hw := h.r.cwf i c hci
   simp only [cwfOk, hpc, hprog] at hw
   have hheld := wfProg_cons hw
-  refine ⟨h.t.frameClient hci rfl rfl rfl hpend rfl rfl rfl rfl, ?_, ?_, h.k.frame rfl rfl rfl⟩
+  refine ⟨h.t.frame rfl rfl rfl rfl rfl rfl (Nat.le_refl _) (fun e => e),
+    h.p.frameClient hci rfl rfl hpend rfl rfl rfl, ?_, ?_, h.k.frame rfl rfl rfl⟩
   · refine h.m.frameClient hci rfl rfl rfl h.m.cpy rfl ?_ ?_ ?_
     · simp [hmx]
     · simp [hcs]
     · intro j hj; simp [hmx]; omega
-  · exact h.r.frameNormal hci hheld rfl (by simp) hnd hw' rfl rfl rfl (fun e => e)
+  · exact h.r.frameNormal hci hheld rfl (by simp) hnd hw' rfl rfl rfl (fun e => e) rfl rfl rfl rfl
 
 theorem inv_release (h : Inv progs s) {c : Client} (hci : s.clients[i]? = some c) (hpc : c.pc = .idle)
     (rest : List Op) (hprog : c.prog = .release :: rest) :
@@ -140,14 +145,14 @@ theorem inv_release (h : Inv progs s) {c : Client} (hci : s.clients[i]? = some c
     have hc1 : c.held = 1 := by omega
     have hrest : rest = [] := by rw [hc1] at hw; exact wfProg_zero hw.2
     subst hrest
-    refine ⟨?_, ?_, ?_, h.k.frame rfl rfl rfl⟩
-    · refine h.t.frameClient' hci (fun _ => rfl) rfl rfl (by simp [pend, hpc, hprog, schedTasks]) rfl rfl rfl ?_
+    refine ⟨?_, h.p.frameClient hci rfl rfl (by simp [pend, hpc, hprog, schedTasks]) rfl rfl rfl, ?_, ?_, h.k.frame rfl rfl rfl⟩
+    · refine h.t.frame' (fun _ => rfl) rfl rfl rfl rfl ?_ (Nat.le_refl _) (fun e => e)
       intro e he hlo
       rcases hlo.1 with h0 | ⟨_, hd⟩
       · exact ⟨Or.inl h0, hlo.2⟩
       · rw [hnone] at hd; cases hd
     · exact h.m.frameClientSame hci rfl rfl rfl h.m.cpy rfl rfl (by simp [hpc, clientCS])
-    · refine ⟨?_, ?_, ?_, ?_, ?_, ?_, ?_, ?_⟩
+    · refine ⟨?_, ?_, ?_, ?_, ?_, ?_, ?_, ?_, h.r.runInv, ?_, ?_⟩
       · have := sum_map_set (·.held) (a := ({ prog := [], held := c.held - 1, pc := .dStore } : Client)) hci
         have := h.r.refSum
         simp only at *; omega
@@ -165,17 +170,24 @@ theorem inv_release (h : Inv progs s) {c : Client} (hci : s.clients[i]? = some c
         simp only [Option.some.injEq, Nat.add_right_cancel_iff] at hdj; subst hdj
         rw [get_set_self hci] at hj; injection hj with hj; subst hj
         simp only [phaseOk]
-        cases hr : s.released with
-        | false => rfl
-        | true => exact absurd hnone (h.r.relD hr)
+        constructor
+        · cases hr : s.released with
+          | false => rfl
+          | true => exact absurd hnone (h.r.relD hr)
+        · cases hr : s.sweeping with
+          | false => rfl
+          | true => exact absurd hnone (h.r.sweepD hr)
       · intro _; simp
       · exact ⟨h.r.exitFlag.1, fun _ => by simp⟩
+      · intro _; simp
+      · intro _; simp
   · simp only [h1, if_false]
-    refine ⟨h.t.frameClient hci rfl rfl rfl (by simp [pend, hpc, hprog, schedTasks]) rfl rfl rfl rfl, ?_, ?_,
+    refine ⟨h.t.frame rfl rfl rfl rfl rfl rfl (Nat.le_refl _) (fun e => e),
+      h.p.frameClient hci rfl rfl (by simp [pend, hpc, hprog, schedTasks]) rfl rfl rfl, ?_, ?_,
       h.k.frame rfl rfl rfl⟩
     · exact h.m.frameClientSame hci rfl rfl rfl h.m.cpy rfl rfl (by simp [hpc])
     · exact h.r.frameNormal hci hheld rfl (by simp only; omega) (by simp [inDestroy]) (by simp [cwfOk, hw])
-        rfl rfl rfl (fun e => e)
+        rfl rfl rfl (fun e => e) rfl rfl rfl rfl
 
 /-! ### `wake` changes only the scheduler thread's program counter, `blocked` → `reacq false` -/
 section wakeFrame
@@ -195,6 +207,9 @@ variable (s : Sys)
 @[simp] theorem wake_freed : (wake s).freed = s.freed := by unfold wake; split <;> rfl
 @[simp] theorem wake_destroyer : (wake s).destroyer = s.destroyer := by unfold wake; split <;> rfl
 @[simp] theorem wake_released : (wake s).released = s.released := by unfold wake; split <;> rfl
+@[simp] theorem wake_cbs : (wake s).cbs = s.cbs := by unfold wake; split <;> rfl
+@[simp] theorem wake_sweeping : (wake s).sweeping = s.sweeping := by unfold wake; split <;> rfl
+@[simp] theorem wake_misuse : (wake s).misuse = s.misuse := by unfold wake; split <;> rfl
 @[simp] theorem wake_listCpy : (wake s).st.listCpy = s.st.listCpy := by unfold wake; split <;> rfl
 @[simp] theorem wake_cancelCpy : (wake s).st.cancelCpy = s.st.cancelCpy := by unfold wake; split <;> rfl
 @[simp] theorem wake_now : (wake s).st.now = s.st.now := by unfold wake; split <;> rfl
@@ -210,27 +225,42 @@ theorem wake_exited_iff : (wake s).st.pc = .exited ↔ s.st.pc = .exited := by
   constructor
   · exact wake_exited s
   · intro h; unfold wake; simp [h]
+theorem wake_runningPhase : runningPhase (wake s).st.pc = runningPhase s.st.pc := by
+  unfold wake; split
+  · rename_i hb; simp [hb, runningPhase]
+  · rfl
+theorem wake_pcPendS : pcPendS (wake s).st = pcPendS s.st := by
+  unfold wake; split
+  · rename_i hb; simp [hb, pcPendS]
+  · rfl
 end wakeFrame
+
+theorem cwfOk_destroy {c' : Client} (hh : c'.held = 0) (hp : c'.prog = [])
+    (hpc' : inDestroy c'.pc = true ∨ c'.pc = .idle) : cwfOk c' := by
+  rcases hpc' with h1 | h1
+  · cases hpc : c'.pc <;> simp [hpc, inDestroy] at h1 <;> simp [cwfOk, hpc, hh, hp]
+  · simp [cwfOk, h1, hh, hp, wfProg]
 
 /-- a step of the destroy callback that moves the destroying client's program counter -/
 theorem InvR.frameDestroy (h : InvR s) (hci : s.clients[i]? = some c) (hd : s.destroyer = some (i + 1))
-    (hcw : c.held = 0 ∧ c.prog = [])
     (hcl : s'.clients = s.clients.set i c') (hh : c'.held = 0) (hp : c'.prog = [])
     (hpc' : inDestroy c'.pc = true ∨ c'.pc = .idle)
     (hrc : s'.refCount = s.refCount) (hdd : s'.destroyer = s.destroyer)
     (hphase : phaseOk s' c'.pc)
-    (hex : s'.st.pc = .exited → s'.shouldExit = true) : InvR s' := by
+    (hex : s'.st.pc = .exited → s'.shouldExit = true)
+    (hrun : runningPhase s'.st.pc = false → s'.sweeping = false → s'.inner.running = []) : InvR s' := by
   have hil : i < s.clients.length := (List.getElem?_eq_some_iff.mp hci).1
-  refine ⟨?_, ?_, ?_, ?_, ?_, ?_, ?_, ?_⟩
+  have hcw : c.held = 0 := by
+    have h0 := h.dRef (by rw [hd]; simp)
+    have := h.refSum; rw [h0] at this
+    exact sum_map_eq_zero (·.held) this.symm hci
+  refine ⟨?_, ?_, ?_, ?_, ?_, ?_, ?_, ?_, hrun, ?_, ?_⟩
   · have := sum_map_set (·.held) (a := c') hci
     have := h.refSum
     rw [hcl, hrc]; omega
   · intro j cj hj; rw [hcl] at hj
     rcases set_get_cases hj with ⟨e1, e2, _⟩ | ⟨e1, e2⟩
-    · subst e2
-      rcases hpc' with h1 | h1
-      · cases hpc : cj.pc <;> simp [hpc, inDestroy] at h1 <;> simp [cwfOk, hpc, hh, hp]
-      · simp [cwfOk, h1, hh, hp, wfProg]
+    · subst e2; exact cwfOk_destroy hh hp hpc'
     · exact h.cwf j cj e2
   · intro j cj hj hin; rw [hcl] at hj; rw [hdd]
     rcases set_get_cases hj with ⟨e1, e2, _⟩ | ⟨e1, e2⟩
@@ -245,13 +275,16 @@ theorem InvR.frameDestroy (h : InvR s) (hci : s.clients[i]? = some c) (hd : s.de
     exact hphase
   · intro _; rw [hdd, hd]; simp
   · exact ⟨hex, fun _ => by rw [hdd, hd]; simp⟩
+  · intro _; rw [hdd, hd]; simp
+  · intro _; rw [hdd, hd]; simp
 
 /-- a step of the destroy callback that leaves the client record alone (one element of a drain loop) -/
 theorem InvR.frameDestroySame (h : InvR s) (hci : s.clients[i]? = some c) (hd : s.destroyer = some (i + 1))
     (hcl : s'.clients = s.clients) (hrc : s'.refCount = s.refCount) (hdd : s'.destroyer = s.destroyer)
     (hphase : phaseOk s' c.pc)
-    (hex : s'.st.pc = .exited → s'.shouldExit = true) : InvR s' := by
-  refine ⟨?_, ?_, ?_, ?_, ?_, ?_, ?_, ?_⟩
+    (hex : s'.st.pc = .exited → s'.shouldExit = true)
+    (hrun : runningPhase s'.st.pc = false → s'.sweeping = false → s'.inner.running = []) : InvR s' := by
+  refine ⟨?_, ?_, ?_, ?_, ?_, ?_, ?_, ?_, hrun, ?_, ?_⟩
   · rw [hrc, hcl]; exact h.refSum
   · rw [hcl]; exact h.cwf
   · rw [hcl, hdd]; exact h.dIn
@@ -264,6 +297,36 @@ theorem InvR.frameDestroySame (h : InvR s) (hci : s.clients[i]? = some c) (hd : 
     exact hphase
   · intro _; rw [hdd, hd]; simp
   · exact ⟨hex, fun _ => by rw [hdd, hd]; simp⟩
+  · intro _; rw [hdd, hd]; simp
+  · intro _; rw [hdd, hd]; simp
+
+theorem pend_afterInvokeD (c : Client) (op : CbOp) (ret : DRet) :
+    pend { c with pc := afterInvokeD op ret } = op.target ++ schedTasks c.prog := by
+  cases op <;> cases ret <;> rfl
+
+theorem clientCS_afterInvokeD (op : CbOp) (ret : DRet) : clientCS (afterInvokeD op ret) = false := by
+  cases op <;> cases ret <;> rfl
+
+theorem inDestroy_afterInvokeD (op : CbOp) (ret : DRet) : inDestroy (afterInvokeD op ret) = true := by
+  cases op <;> cases ret <;> rfl
+
+theorem phaseOk_afterInvokeD_drainC {s : Sys} (op : CbOp) (hj : joined s) (hsw : s.sweeping = false)
+    (h0 : op = .none → s.misuse = false → s.schedQ = []) (h1 : op ≠ .none → s.misuse = true) :
+    phaseOk s (afterInvokeD op .drainC) := by
+  cases op with
+  | none => exact ⟨hj, hsw, h0 rfl⟩
+  | scheduleNow t => exact ⟨hj, hsw, h1 (by simp)⟩
+  | scheduleFuture t τ => exact ⟨hj, hsw, h1 (by simp)⟩
+  | cancel t => exact ⟨hj, hsw, h1 (by simp)⟩
+
+theorem phaseOk_afterInvokeD_sweep {s : Sys} (op : CbOp) (hj : joined s) (hsw : s.sweeping = true)
+    (h0 : op = .none → s.misuse = false → qEmpty s) (h1 : op ≠ .none → s.misuse = true) :
+    phaseOk s (afterInvokeD op .sweep) := by
+  cases op with
+  | none => exact ⟨hj, hsw, h0 rfl⟩
+  | scheduleNow t => exact ⟨hj, hsw, h1 (by simp)⟩
+  | scheduleFuture t τ => exact ⟨hj, hsw, h1 (by simp)⟩
+  | cancel t => exact ⟨hj, hsw, h1 (by simp)⟩
 
 theorem inv_stepClient (h : Inv progs s) (hs : stepClient Cfg.fixed s i = some s') : Inv progs s' := by
   unfold stepClient at hs
@@ -274,6 +337,7 @@ theorem inv_stepClient (h : Inv progs s) (hs : stepClient Cfg.fixed s i = some s
     have hw := h.r.cwf i c hci
     have hmC := h.m.mutexC i c hci
     have hT := h.t
+    have hP := h.p
     cases hpc : c.pc with
     | idle =>
       simp only [hpc] at hs
@@ -312,11 +376,12 @@ theorem inv_stepClient (h : Inv progs s) (hs : stepClient Cfg.fixed s i = some s
           simp only at hs
           injection hs with hs; subst hs
           simp [wfProg] at hw
-          refine ⟨h.t.frameClient hci rfl rfl rfl (by simp [pend, hpc, hprog, schedTasks]) rfl rfl rfl rfl, ?_, ?_,
+          refine ⟨h.t.frame rfl rfl rfl rfl rfl rfl (Nat.le_refl _) (fun e => e),
+            h.p.frameClient hci rfl rfl (by simp [pend, hpc, hprog, schedTasks]) rfl rfl rfl, ?_, ?_,
             h.k.frame rfl rfl rfl⟩
           · exact h.m.frameClientSame hci rfl rfl rfl h.m.cpy rfl rfl (by simp [hpc])
           · exact h.r.frameNormal hci hheld rfl (by simp; omega) (by simp [inDestroy, hpc]) (by simp [cwfOk, hpc, hw])
-              rfl rfl rfl (fun e => e)
+              rfl rfl rfl (fun e => e) rfl rfl rfl rfl
         | release =>
           simp only at hs
           injection hs with hs; subst hs
@@ -328,98 +393,58 @@ theorem inv_stepClient (h : Inv progs s) (hs : stepClient Cfg.fixed s i = some s
       have hpe : pend c = t :: schedTasks c.prog := by simp [pend, hpc]
       have hpe' : pend { c with pc := CPc.unlock } = schedTasks c.prog := by simp [pend]
       have ht0 : s.scheduled.count t = 0 := by
-        have := hT.cntSched t; have := hT.wf1 t
+        have := hP.cntSched t
         have := count_le_flatMap pend t hci
         rw [hpe] at this; simp [List.count_cons] at this
-        unfold pendAll at *; omega
-      have htp : (places s).count t = 0 := by rw [hT.cntPlaces t]; exact ht0
-      have hnasap : t ∉ s.inner.asap := by
-        intro hin; have := List.count_pos_iff.mpr hin
-        simp only [places, innerTasks, List.count_append] at htp; omega
-      have hnlog : t ∉ logTasks s := by
-        intro hin; have := List.count_pos_iff.mpr hin
-        simp only [places, List.count_append] at htp; omega
-      refine ⟨?_, ?_, ?_, h.k.frame rfl rfl rfl⟩
-      · refine ⟨hT.wf1, ?_, ?_, hT.flagInv, ?_, ?_⟩
-        · intro a
-          have := hT.cntPlaces a
-          simp only [places, handOver, recs, logTasks, innerTasks, List.count_append, List.count_cons,
-            List.count_nil] at this ⊢
-          omega
-        · intro a
-          have e1 := pendAll_set (s' := { s with clients := s.clients.set i { c with pc := CPc.unlock } }) hci rfl a
-          rw [hpe, hpe'] at e1
-          have := hT.cntSched a
-          simp only [List.count_append, List.count_cons, List.count_nil] at e1 ⊢
-          unfold pendAll at *
-          simp only at e1 ⊢
-          omega
-        · intro u hu
-          have hne : u ≠ t := fun e => hnasap (e ▸ hu)
-          simp only [hne, if_false]
-          exact hT.asapTs u hu
-        · intro e he
-          have := hT.logInv e he
-          have hne : e.task ≠ t := fun e' => hnlog (by rw [← e']; exact List.mem_map_of_mem he)
-          unfold logOk at *
-          simp only [hne, if_false]
-          exact this
+        simp only [pendAll, clientPend, List.count_append] at *; omega
+      have hset := clientPend_set (s' := { s with clients := s.clients.set i { c with pc := CPc.unlock } }) hci rfl
+      refine ⟨?_, ?_, ?_, ?_, h.k.frame rfl rfl rfl⟩
+      · exact (pushTask_T hT t τ ht0).frame rfl rfl rfl rfl rfl rfl (Nat.le_refl _) (fun e => e)
+      · refine hP.push [t] rfl rfl rfl ?_ ?_
+        · intro a; have := hset a; rw [hpe, hpe'] at this
+          simp only [List.count_cons, List.count_nil, clientPend] at this ⊢; omega
+        · intro a; have := hset a; rw [hpe, hpe'] at this
+          simp only [List.count_cons, List.count_nil, clientPend] at this ⊢; omega
       · exact h.m.frameClientSame hci rfl rfl rfl h.m.cpy rfl rfl (by simp [hpc, clientCS])
       · exact h.r.frameNormal hci hw.1 rfl (by simp) (by simp [inDestroy]) (by simp [cwfOk, hw])
-          rfl rfl rfl (fun e => e)
+          rfl rfl rfl (fun e => e) rfl rfl rfl rfl
     | cBody t =>
       simp only [hpc] at hs
       injection hs with hs; subst hs
       simp only [cwfOk, hpc] at hw
-      refine ⟨?_, ?_, ?_, ?_⟩
-      · refine h.t.frameClient' hci ?_ rfl rfl (by simp [pend, hpc]) rfl rfl rfl
-          (fun e _ he => he)
-        intro a
-        by_cases hf : t ∈ s.schedQ
-        · have := List.count_pos_iff.mpr hf
-          simp only [places, handOver, recs, logTasks, innerTasks, hf, decide_true, if_true, remTasks_append,
-            remTasks_cons, remTasks_nil, List.count_append, List.count_cons, List.count_nil, List.count_erase,
-            beq_iff_eq]
-          by_cases hta : t = a
-          · subst hta; simp; omega
-          · simp [hta]
-        · simp only [places, handOver, recs, logTasks, innerTasks, hf, decide_false, if_false, remTasks_append,
-            remTasks_cons, remTasks_nil, List.count_append, List.count_cons, List.count_nil, Bool.false_eq_true]
-          simp
+      refine ⟨?_, ?_, ?_, ?_, ?_⟩
+      · exact (pushCancel_T hT t).frame rfl rfl rfl rfl rfl rfl (Nat.le_refl _) (fun e => e)
+      · exact hP.frameClient hci rfl rfl (by simp [pend, hpc]) rfl rfl rfl
       · exact h.m.frameClientSame hci rfl rfl rfl h.m.cpy rfl rfl (by simp [hpc, clientCS])
       · exact h.r.frameNormal hci hw.1 rfl (by simp) (by simp [inDestroy]) (by simp [cwfOk, hw])
-          rfl rfl rfl (fun e => e)
-      · constructor; intro id
-        have := h.k.recCount id
-        simp only [recs, List.map_append, List.map_cons, List.map_nil, List.count_append, List.count_cons,
-          List.count_nil, beq_iff_eq] at this ⊢
-        by_cases hid : s.nextRec = id
-        · subst hid; simp at this ⊢; omega
-        · simp only [hid, if_false] at this ⊢
-          split at this <;> split <;> omega
+          rfl rfl rfl (fun e => e) rfl rfl rfl rfl
+      · exact (pushCancel_K h.k t).frame rfl rfl rfl
     | unlock =>
       simp only [hpc] at hs
       injection hs with hs; subst hs
       simp only [cwfOk, hpc] at hw
       have hmx : s.mutex = some (i + 1) := hmC.mp (by simp [hpc, clientCS])
-      refine ⟨h.t.frameClient hci rfl rfl rfl (by simp [pend, hpc]) rfl rfl rfl rfl, ?_, ?_, h.k.frame rfl rfl rfl⟩
+      refine ⟨h.t.frame rfl rfl rfl rfl rfl rfl (Nat.le_refl _) (fun e => e),
+        h.p.frameClient hci rfl rfl (by simp [pend, hpc]) rfl rfl rfl, ?_, ?_, h.k.frame rfl rfl rfl⟩
       · refine h.m.frameClient hci rfl rfl rfl h.m.cpy rfl ?_ ?_ ?_
         · simp [hmx]
         · simp [clientCS]
         · intro j hj; simp [hmx]; omega
       · exact h.r.frameNormal hci hw.1 rfl (by simp) (by simp [inDestroy]) (by simp [cwfOk, hw])
-          rfl rfl rfl (fun e => e)
+          rfl rfl rfl (fun e => e) rfl rfl rfl rfl
     | notify =>
       simp only [hpc] at hs
       injection hs with hs; subst hs
       simp only [cwfOk, hpc] at hw
-      refine ⟨h.t.frameClient hci ?_ (by simp) (by simp; rfl) (by simp [pend, hpc]) (by simp) (by simp) (by simp) (by simp),
+      refine ⟨h.t.frame ?_ (by simp) (by simp) (by simp) (by simp) (by simp) (by simp) ?_,
+        h.p.frameClient (c' := { c with pc := CPc.idle }) hci (by simp) (by simp) (by simp [pend, hpc]) (wake_pcPendS s) (by simp) (by simp),
         ?_, ?_, h.k.frame ?_ (by simp) (by simp)⟩
       · simp [places, handOver, recs, innerTasks, logTasks]
-      · exact h.m.frameClientSame hci (by simp; rfl) (by simp) (by simp) (cpyOk_wake s h.m.cpy) (wake_schedCS s) (by simp)
+      · intro hne e; exact hne ((wake_exited_iff s).mpr e)
+      · exact h.m.frameClientSame (c' := { c with pc := CPc.idle }) hci (by simp) (by simp) (by simp) (cpyOk_wake s h.m.cpy) (wake_schedCS s) (by simp)
           (by simp [hpc, clientCS])
-      · exact h.r.frameNormal hci hw.1 (by simp; rfl) (by simp) (by simp [inDestroy]) (by simp [cwfOk, hw])
-          (by simp) (by simp) (by simp) (wake_exited s)
+      · exact h.r.frameNormal (c' := { c with pc := CPc.idle }) hci hw.1 (by simp) (by simp) (by simp [inDestroy]) (by simp [cwfOk, hw])
+          (by simp) (by simp) (by simp) (wake_exited s) (wake_runningPhase s) (by simp) (by simp) (by simp)
       · simp [recs]
     | dStore =>
       simp only [hpc] at hs
@@ -428,9 +453,10 @@ theorem inv_stepClient (h : Inv progs s) (hs : stepClient Cfg.fixed s i = some s
       have hd : s.destroyer = some (i + 1) := h.r.dIn i c hci (by simp [hpc, inDestroy])
       have hph := h.r.dPhase i c hd hci
       simp only [hpc, phaseOk] at hph
-      refine ⟨h.t.frameClient hci rfl rfl rfl (by simp [pend, hpc]) rfl rfl rfl rfl, ?_, ?_, h.k.frame rfl rfl rfl⟩
+      refine ⟨h.t.frame rfl rfl rfl rfl rfl rfl (Nat.le_refl _) (fun e => e),
+        h.p.frameClient hci rfl rfl (by simp [pend, hpc]) rfl rfl rfl, ?_, ?_, h.k.frame rfl rfl rfl⟩
       · exact h.m.frameClientSame hci rfl rfl rfl h.m.cpy rfl rfl (by simp [hpc, clientCS])
-      · exact h.r.frameDestroy hci hd hw rfl hw.1 hw.2 (Or.inl rfl) rfl rfl hph (fun _ => rfl)
+      · exact h.r.frameDestroy hci hd rfl hw.1 hw.2 (Or.inl rfl) rfl rfl hph (fun _ => rfl) h.r.runInv
     | dNotify =>
       simp only [hpc] at hs
       injection hs with hs; subst hs
@@ -438,14 +464,17 @@ theorem inv_stepClient (h : Inv progs s) (hs : stepClient Cfg.fixed s i = some s
       have hd : s.destroyer = some (i + 1) := h.r.dIn i c hci (by simp [hpc, inDestroy])
       have hph := h.r.dPhase i c hd hci
       simp only [hpc, phaseOk] at hph
-      refine ⟨h.t.frameClient hci ?_ (by simp) (by simp; rfl) (by simp [pend, hpc]) (by simp) (by simp) (by simp) (by simp),
+      refine ⟨h.t.frame ?_ (by simp) (by simp) (by simp) (by simp) (by simp) (by simp) ?_,
+        h.p.frameClient (c' := { c with pc := CPc.dJoin }) hci (by simp) (by simp) (by simp [pend, hpc]) (wake_pcPendS s) (by simp) (by simp),
         ?_, ?_, h.k.frame ?_ (by simp) (by simp)⟩
       · simp [places, handOver, recs, innerTasks, logTasks]
-      · exact h.m.frameClientSame hci (by simp; rfl) (by simp) (by simp) (cpyOk_wake s h.m.cpy) (wake_schedCS s) (by simp)
+      · intro hne e; exact hne ((wake_exited_iff s).mpr e)
+      · exact h.m.frameClientSame (c' := { c with pc := CPc.dJoin }) hci (by simp) (by simp) (by simp) (cpyOk_wake s h.m.cpy) (wake_schedCS s) (by simp)
           (by simp [hpc, clientCS])
-      · refine h.r.frameDestroy (c' := { c with pc := CPc.dJoin }) hci hd hw (by simp) hw.1 hw.2 (Or.inl rfl) (by simp) (by simp) ?_ ?_
+      · refine h.r.frameDestroy (c' := { c with pc := CPc.dJoin }) hci hd (by simp) hw.1 hw.2 (Or.inl rfl) (by simp) (by simp) ?_ ?_ ?_
         · simp [phaseOk, hph]
         · intro he; simp only [wake_shouldExit]; exact h.r.exitFlag.1 (wake_exited s he)
+        · rw [wake_runningPhase]; simp only [wake_sweeping, wake_inner]; exact h.r.runInv
       · simp [recs]
     | dJoin =>
       simp only [hpc] at hs
@@ -456,28 +485,31 @@ theorem inv_stepClient (h : Inv progs s) (hs : stepClient Cfg.fixed s i = some s
         have hd : s.destroyer = some (i + 1) := h.r.dIn i c hci (by simp [hpc, inDestroy])
         have hph := h.r.dPhase i c hd hci
         simp only [hpc, phaseOk] at hph
-        refine ⟨h.t.frameClient hci rfl rfl rfl (by simp [pend, hpc, Cfg.fixed]) rfl rfl rfl rfl, ?_, ?_, h.k.frame rfl rfl rfl⟩
+        refine ⟨h.t.frame rfl rfl rfl rfl rfl rfl (Nat.le_refl _) (fun e => e),
+          h.p.frameClient hci rfl rfl (by simp [pend, hpc, Cfg.fixed]) rfl rfl rfl, ?_, ?_, h.k.frame rfl rfl rfl⟩
         · exact h.m.frameClientSame hci rfl rfl rfl h.m.cpy rfl rfl (by simp [hpc, clientCS, Cfg.fixed])
-        · exact h.r.frameDestroy hci hd hw rfl hw.1 hw.2 (Or.inl (by simp [Cfg.fixed, inDestroy])) rfl rfl
-            (by simp [Cfg.fixed, phaseOk, hph, hex]) h.r.exitFlag.1
+        · exact h.r.frameDestroy hci hd rfl hw.1 hw.2 (Or.inl (by simp [Cfg.fixed, inDestroy])) rfl rfl
+            (by simp [Cfg.fixed, phaseOk, joined, hph, hex]) h.r.exitFlag.1 h.r.runInv
       · cases hs
     | dDrainQ =>
       simp only [hpc] at hs
       simp only [cwfOk, hpc] at hw
       have hd : s.destroyer = some (i + 1) := h.r.dIn i c hci (by simp [hpc, inDestroy])
       have hph := h.r.dPhase i c hd hci
-      simp only [hpc, phaseOk] at hph
+      simp only [hpc, phaseOk, joined] at hph
       split at hs
       · rename_i hq
         injection hs with hs; subst hs
-        refine ⟨h.t.frameClient hci rfl rfl rfl (by simp [pend, hpc]) rfl rfl rfl rfl, ?_, ?_, h.k.frame rfl rfl rfl⟩
+        refine ⟨h.t.frame rfl rfl rfl rfl rfl rfl (Nat.le_refl _) (fun e => e),
+          h.p.frameClient hci rfl rfl (by simp [pend, hpc]) rfl rfl rfl, ?_, ?_, h.k.frame rfl rfl rfl⟩
         · exact h.m.frameClientSame hci rfl rfl rfl h.m.cpy rfl rfl (by simp [hpc, clientCS])
-        · exact h.r.frameDestroy hci hd hw rfl hw.1 hw.2 (Or.inl rfl) rfl rfl
-            (by simp [phaseOk, hph, hq]) h.r.exitFlag.1
+        · exact h.r.frameDestroy hci hd rfl hw.1 hw.2 (Or.inl rfl) rfl rfl
+            (by simp [phaseOk, joined, hph, hq]) h.r.exitFlag.1 h.r.runInv
       · rename_i t r hq
         injection hs with hs; subst hs
-        refine ⟨?_, ⟨h.m.nowLe, h.m.cpy, h.m.mutexS, h.m.mutexC, h.m.mutexB⟩, ?_, h.k.frame rfl rfl rfl⟩
-        · refine ⟨hT.wf1, ?_, hT.cntSched, ?_, ?_, hT.logInv⟩
+        refine ⟨?_, h.p.frame rfl (fun _ => rfl) rfl rfl rfl, ⟨h.m.nowLe, h.m.cpy, h.m.mutexS, h.m.mutexC, h.m.mutexB⟩,
+          ?_, h.k.frame rfl rfl rfl⟩
+        · refine ⟨?_, ?_, ?_, hT.logInv, ?_⟩
           · intro a
             have := hT.cntPlaces a
             have hc := count_schedule s.inner s.tsOf t a
@@ -489,35 +521,90 @@ theorem inv_stepClient (h : Inv progs s) (hs : stepClient Cfg.fixed s i = some s
             rcases asap_schedule s.inner s.tsOf t u hu with h1 | ⟨h1, h2⟩
             · exact hT.asapTs u h1
             · subst h1; exact h2
-        · exact h.r.frameDestroySame hci hd rfl rfl rfl (by simp [hpc, phaseOk, hph]) h.r.exitFlag.1
+          · intro hne; exact absurd hph.1.2 hne
+        · exact h.r.frameDestroySame hci hd rfl rfl rfl (by simp [hpc, phaseOk, joined, hph]) h.r.exitFlag.1
+            (fun h1 h2 => by simp only [running_schedule]; exact h.r.runInv h1 h2)
+    | dFree =>
+      simp only [hpc] at hs
+      injection hs with hs; subst hs
+      simp only [cwfOk, hpc] at hw
+      have hd : s.destroyer = some (i + 1) := h.r.dIn i c hci (by simp [hpc, inDestroy])
+      have hph := h.r.dPhase i c hd hci
+      simp only [hpc, phaseOk, joined] at hph
+      refine ⟨h.t.frame rfl rfl rfl rfl rfl rfl (Nat.le_refl _) (fun e => e),
+        h.p.frameClient hci rfl rfl (by simp [pend, hpc]) rfl rfl rfl, ?_, ?_, h.k.frame rfl rfl rfl⟩
+      · exact h.m.frameClientSame hci rfl rfl rfl h.m.cpy rfl rfl (by simp [hpc, clientCS])
+      · exact h.r.frameDestroy hci hd rfl hw.1 hw.2 (Or.inr rfl) rfl rfl
+          (by show _ ∧ _; exact ⟨rfl, hph.1.2, hph.2.1, hph.2.2.1, hph.2.2.2⟩) h.r.exitFlag.1 h.r.runInv
     | dDrainC =>
       simp only [hpc] at hs
       simp only [cwfOk, hpc] at hw
       have hd : s.destroyer = some (i + 1) := h.r.dIn i c hci (by simp [hpc, inDestroy])
       have hph := h.r.dPhase i c hd hci
-      simp only [hpc, phaseOk] at hph
+      simp only [hpc, phaseOk, joined] at hph
       split at hs
       · rename_i hq
         injection hs with hs; subst hs
-        refine ⟨h.t.frameClient hci rfl rfl rfl (by simp [pend, hpc]) rfl rfl rfl rfl, ?_, ?_, h.k.frame rfl rfl rfl⟩
+        refine ⟨h.t.frame rfl rfl rfl rfl rfl rfl (Nat.le_refl _) (fun e => e),
+          h.p.frameClient hci rfl rfl (by simp [pend, hpc]) rfl rfl rfl, ?_, ?_, h.k.frame rfl rfl rfl⟩
         · exact h.m.frameClientSame hci rfl rfl rfl h.m.cpy rfl rfl (by simp [hpc, clientCS])
-        · exact h.r.frameDestroy hci hd hw rfl hw.1 hw.2 (Or.inl rfl) rfl rfl
-            (by simp [phaseOk, qEmpty, hph, hq]) h.r.exitFlag.1
+        · exact h.r.frameDestroy hci hd rfl hw.1 hw.2 (Or.inl rfl) rfl rfl
+            (by simp only [phaseOk, joined, qEmpty]; exact ⟨hph.1, hph.2.1, fun hm => ⟨hph.2.2 hm, hq⟩⟩)
+            h.r.exitFlag.1 h.r.runInv
       · rename_i r rest hq
         injection hs with hs; subst hs
-        refine ⟨?_, ?_, ?_, ?_⟩
-        · refine procRec_T (i + 1) r _ hT.wf1 ?_ hT.cntSched hT.flagInv hT.asapTs hT.logInv (Or.inr hd)
+        have hcnt : ∀ a, (places { s with cancelQ := rest }).count a +
+            (if r.removed = true ∧ r.task = a then 1 else 0) = s.scheduled.count a := by
           intro a
           have := hT.cntPlaces a
           simp only [places, handOver, recs, logTasks, innerTasks, hq, remTasks_append, remTasks_cons,
             List.count_append] at this ⊢
           cases hr : r.removed <;> simp [hr, List.count_cons] at this ⊢ <;> omega
-        · have hm := h.m
-          refine ⟨by simpa using hm.nowLe, by simpa using hm.cpy, by simpa using hm.mutexS, ?_, ?_⟩
-          · intro j cj hj; simp only [procRec_clients, procRec_mutex] at hj ⊢; exact hm.mutexC j cj hj
-          · intro k hk; simp only [procRec_clients, procRec_mutex] at hk ⊢; exact hm.mutexB k hk
-        · exact h.r.frameDestroySame hci hd (by simp) (by simp) (by simp) (by simp [hpc, phaseOk, hph])
-            (by simpa using h.r.exitFlag.1)
+        have hTp := procRec_T (i + 1) r { s with cancelQ := rest } hcnt hP.sched_le hT.flagInv
+          hT.asapTs hT.logInv hT.runTs (Or.inr hd)
+        have hpe : pend c = [] := by simp [pend, hpc, hw.2, schedTasks]
+        have hsp : schedTasks c.prog = [] := by rw [hw.2]; rfl
+        refine ⟨?_, ?_, ?_, ?_, ?_⟩
+        · exact hTp.frame rfl rfl rfl rfl rfl rfl (Nat.le_refl _) (fun e => e)
+        · by_cases hg : procGuard Cfg.fixed s r = true
+          · have hfresh := procRec_fresh r { s with cancelQ := rest } hcnt hP.sched_le hT.flagInv hg
+            have hg' : procGuard Cfg.fixed { s with cancelQ := rest } r = true := hg
+            refine hP.invoke r.task .canceled (by simp) (by simp) ?_ hfresh ?_ ?_
+            · simp [logTasks, procRec_log, hg']
+            · intro a
+              have := clientPend_set (s' := { s with clients := s.clients.set i { c with pc := afterInvokeD (s.cbs.get r.task .canceled) .drainC } }) hci rfl a
+              rw [hpe, pend_afterInvokeD, hsp] at this
+              simp only [hg, if_true, procRec_clients, procRec_st, clientPend, List.append_nil,
+                List.count_nil] at this ⊢
+              omega
+            · intro a
+              have := clientPend_set (s' := { s with clients := s.clients.set i { c with pc := afterInvokeD (s.cbs.get r.task .canceled) .drainC } }) hci rfl a
+              rw [hpe, pend_afterInvokeD, hsp] at this
+              simp only [hg, if_true, procRec_clients, clientPend, List.append_nil, List.count_nil] at this ⊢
+              omega
+          · have hg' : procGuard Cfg.fixed { s with cancelQ := rest } r = false := by
+              have : procGuard Cfg.fixed s r = false := by simpa using hg
+              exact this
+            refine hP.frameClient (c' := { c with pc := CPc.dDrainC }) hci (by simp) ?_ (by simp [pend, hpc]) (by simp) (by simp) ?_
+            · simp [hg, afterInvokeD, DRet.pc]
+            · simp [procRec_log, hg']
+        · refine h.m.frameClientSame (c' := { c with pc := afterInvokeD (if procGuard Cfg.fixed s r = true then s.cbs.get r.task .canceled else .none) .drainC })
+            hci (by simp) (by simp) (by simp) (by simpa using h.m.cpy) (by simp) (by simp) ?_
+          show clientCS (afterInvokeD _ _) = clientCS c.pc
+          rw [clientCS_afterInvokeD, hpc]; rfl
+        · refine h.r.frameDestroy (c' := { c with pc := afterInvokeD (if procGuard Cfg.fixed s r = true then s.cbs.get r.task .canceled else .none) .drainC })
+            hci hd (by simp) hw.1 hw.2 (Or.inl (inDestroy_afterInvokeD _ _)) (by simp) (by simp) ?_ ?_ ?_
+          · refine phaseOk_afterInvokeD_drainC _ ?_ (by simpa using hph.2.1) ?_ ?_
+            · simpa [joined] using hph.1
+            · intro h0 hm; simp [h0] at hm; simpa using hph.2.2 hm
+            · intro h1; simp [h1]
+          · simpa using h.r.exitFlag.1
+          · intro h1 h2
+            have := h.r.runInv (by simpa using h1) (by simpa using h2)
+            apply List.eq_nil_iff_forall_not_mem.mpr
+            intro u hu
+            have := procRec_running_sub _ _ _ _ u hu
+            simp_all
         · constructor; intro id
           have := h.k.recCount id
           simp only [recs, hq, procRec_freed, procRec_cancelQ, procRec_st, procRec_nextRec, List.map_append,
@@ -525,50 +612,187 @@ theorem inv_stepClient (h : Inv progs s) (hs : stepClient Cfg.fixed s i = some s
           omega
     | dCleanUp =>
       simp only [hpc] at hs
-      injection hs with hs; subst hs
       simp only [cwfOk, hpc] at hw
       have hd : s.destroyer = some (i + 1) := h.r.dIn i c hci (by simp [hpc, inDestroy])
       have hph := h.r.dPhase i c hd hci
-      simp only [hpc, phaseOk] at hph
-      refine ⟨?_, ?_, ?_, h.k.frame rfl rfl rfl⟩
-      · refine ⟨hT.wf1, ?_, ?_, ?_, ?_, ?_⟩
-        · intro a
-          have := hT.cntPlaces a
-          simp only [places, handOver, recs, logTasks, innerTasks, Inner.cleanUp, List.count_append, List.map_append,
-            List.map_map, List.count_nil] at this ⊢
-          have hmap : ∀ l : List Task, (List.map ((fun x : Entry => x.task) ∘ fun t => ({ task := t, status := Status.canceled, thread := i + 1, time := s.clock } : Entry))
-              l) = l := by
-            intro l; simp [Function.comp_def]
-          simp only [hmap]; omega
-        · intro a
-          have e1 := pendAll_set (s' := { s with clients := s.clients.set i { c with pc := CPc.dFree } }) hci rfl a
-          have : pend { c with pc := CPc.dFree } = pend c := by simp [pend, hpc]
-          rw [this] at e1
-          have := hT.cntSched a
-          unfold pendAll at *
-          simp only at e1 ⊢
-          omega
-        · exact flagInv_cleanUp s.inner hT.flagInv
-        · intro u hu; simp [Inner.cleanUp] at hu
-        · intro e he
-          simp only [List.mem_append, List.mem_map] at he
-          rcases he with he | ⟨t, ht, he⟩
-          · exact hT.logInv e he
-          · subst he
-            exact ⟨Or.inr ⟨rfl, hd⟩, by simp⟩
-      · exact h.m.frameClientSame hci rfl rfl rfl h.m.cpy rfl rfl (by simp [hpc, clientCS])
-      · exact h.r.frameDestroy hci hd hw rfl hw.1 hw.2 (Or.inl rfl) rfl rfl
-          (by simp [phaseOk, qEmpty, iEmpty, Inner.cleanUp, hph] at hph ⊢; exact hph) h.r.exitFlag.1
-    | dFree =>
+      simp only [hpc, phaseOk, joined] at hph
+      split at hs
+      · rename_i hht
+        injection hs with hs; subst hs
+        refine ⟨?_, h.p.frameClient hci rfl rfl (by simp [pend, hpc]) rfl rfl rfl, ?_, ?_, h.k.frame rfl rfl rfl⟩
+        · refine ⟨?_, ?_, ?_, hT.logInv, ?_⟩
+          · intro a
+            have := hT.cntPlaces a
+            have hc := count_sweepAll s.inner a
+            simp only [places, handOver, recs, logTasks, innerTasks, innerT, List.count_append] at this hc ⊢
+            omega
+          · exact flagInv_of_count hT.flagInv rfl (count_sweepAll s.inner)
+          · intro u hu; simp [Inner.sweepAll] at hu
+          · intro hne; exact absurd hph.1.2 hne
+        · exact h.m.frameClientSame hci rfl rfl rfl h.m.cpy rfl rfl (by simp [hpc, clientCS])
+        · exact h.r.frameDestroy hci hd rfl hw.1 hw.2 (Or.inl rfl) rfl rfl
+            (by show _ ∧ _; exact ⟨hph.1, rfl, hph.2.2⟩) h.r.exitFlag.1 (fun _ h2 => by simp at h2)
+      · rename_i hht
+        injection hs with hs; subst hs
+        have hrun := h.r.runInv (by simp [hph.1.2, runningPhase]) hph.2.1
+        have hie : iEmpty s := by
+          simp [Inner.hasTasks] at hht
+          exact ⟨hht.1, hht.2, hrun⟩
+        refine ⟨h.t.frame rfl rfl rfl rfl rfl rfl (Nat.le_refl _) (fun e => e),
+          h.p.frameClient hci rfl rfl (by simp [pend, hpc]) rfl rfl rfl, ?_, ?_, h.k.frame rfl rfl rfl⟩
+        · exact h.m.frameClientSame hci rfl rfl rfl h.m.cpy rfl rfl (by simp [hpc, clientCS])
+        · exact h.r.frameDestroy hci hd rfl hw.1 hw.2 (Or.inl rfl) rfl rfl
+            (by show _ ∧ _; exact ⟨hph.1, hph.2.1, hie, hph.2.2⟩) h.r.exitFlag.1 h.r.runInv
+    | dSweep =>
+      simp only [hpc] at hs
+      simp only [cwfOk, hpc] at hw
+      have hd : s.destroyer = some (i + 1) := h.r.dIn i c hci (by simp [hpc, inDestroy])
+      have hph := h.r.dPhase i c hd hci
+      simp only [hpc, phaseOk, joined] at hph
+      split at hs
+      · rename_i hpop
+        injection hs with hs; subst hs
+        refine ⟨h.t.frame rfl rfl rfl rfl rfl rfl (Nat.le_refl _) (fun e => e),
+          h.p.frameClient hci rfl rfl (by simp [pend, hpc]) rfl rfl rfl, ?_, ?_, h.k.frame rfl rfl rfl⟩
+        · exact h.m.frameClientSame hci rfl rfl rfl h.m.cpy rfl rfl (by simp [hpc, clientCS])
+        · exact h.r.frameDestroy hci hd rfl hw.1 hw.2 (Or.inl rfl) rfl rfl
+            (by show _ ∧ _; exact ⟨hph.1, rfl, hph.2.2⟩) h.r.exitFlag.1 (fun _ _ => popRunning_none hpop)
+      · rename_i t I hpop
+        injection hs with hs; subst hs
+        obtain ⟨r, hr, hI⟩ := popRunning_eq hpop
+        have hin : (innerT s.inner).count t ≤ 1 := by
+          have := hT.cntPlaces t; have := hP.sched_le t
+          simp only [places, innerTasks, innerT, List.count_append] at *; omega
+        have hpos : 0 < s.inner.running.count t := by rw [hr]; simp
+        have hfresh : t ∉ logTasks s := by
+          intro hin'
+          have h1 := List.count_pos_iff.mpr hin'
+          have := hT.cntPlaces t; have := hP.sched_le t
+          simp only [places, innerTasks, List.count_append] at *; omega
+        have hpe : pend c = [] := by simp [pend, hpc, hw.2, schedTasks]
+        have hsp : schedTasks c.prog = [] := by rw [hw.2]; rfl
+        refine ⟨?_, ?_, ?_, ?_, h.k.frame rfl rfl rfl⟩
+        · refine ⟨?_, ?_, ?_, ?_, ?_⟩
+          · intro a
+            have := hT.cntPlaces a
+            have hc := count_popRunning hpop a
+            simp only [places, handOver, recs, logTasks, innerTasks, innerT, List.count_append, List.map_append,
+              List.map_cons, List.map_nil, List.count_cons, List.count_nil, beq_iff_eq] at this hc ⊢
+            omega
+          · exact flagInv_popRunning hpop hT.flagInv hin
+          · intro u hu; subst hI; exact hT.asapTs u hu
+          · intro e he
+            simp only [List.mem_append, List.mem_singleton] at he
+            rcases he with he | he
+            · exact hT.logInv e he
+            · subst he
+              exact ⟨Or.inr ⟨rfl, hd⟩, by simp⟩
+          · intro hne; exact absurd hph.1.2 hne
+        · refine hP.invoke t .canceled rfl rfl (by simp [logTasks]) hfresh ?_ ?_
+          · intro a
+            have := clientPend_set (s' := { s with clients := s.clients.set i { c with pc := afterInvokeD (s.cbs.get t .canceled) .sweep } }) hci rfl a
+            rw [hpe, pend_afterInvokeD, hsp] at this
+            simp only [clientPend, List.append_nil, List.count_nil] at this ⊢
+            omega
+          · intro a
+            have := clientPend_set (s' := { s with clients := s.clients.set i { c with pc := afterInvokeD (s.cbs.get t .canceled) .sweep } }) hci rfl a
+            rw [hpe, pend_afterInvokeD, hsp] at this
+            simp only [clientPend, List.append_nil, List.count_nil] at this ⊢
+            omega
+        · refine h.m.frameClientSame (c' := { c with pc := afterInvokeD (s.cbs.get t .canceled) .sweep })
+            hci rfl rfl rfl h.m.cpy rfl rfl ?_
+          show clientCS (afterInvokeD _ _) = clientCS c.pc
+          rw [clientCS_afterInvokeD, hpc]; rfl
+        · refine h.r.frameDestroy (c' := { c with pc := afterInvokeD (s.cbs.get t .canceled) .sweep })
+            hci hd rfl hw.1 hw.2 (Or.inl (inDestroy_afterInvokeD _ _)) rfl rfl ?_ h.r.exitFlag.1 (fun _ h2 => ?_)
+          · refine phaseOk_afterInvokeD_sweep _ hph.1 hph.2.1 ?_ ?_
+            · intro h0 hm; simp [h0] at hm; exact hph.2.2 hm
+            · intro h1; simp [h1]
+          · rw [hph.2.1] at h2; cases h2
+    | dcbLock op ret =>
+      simp only [hpc] at hs
+      simp only [cwfOk, hpc] at hw
+      have hd : s.destroyer = some (i + 1) := h.r.dIn i c hci (by simp [hpc, inDestroy])
+      have hph := h.r.dPhase i c hd hci
+      split at hs
+      · rename_i hmx
+        injection hs with hs; subst hs
+        refine ⟨h.t.frame rfl rfl rfl rfl rfl rfl (Nat.le_refl _) (fun e => e),
+          h.p.frameClient hci rfl rfl (by simp [pend, hpc]) rfl rfl rfl, ?_, ?_, h.k.frame rfl rfl rfl⟩
+        · refine h.m.frameClient hci rfl rfl rfl h.m.cpy rfl ?_ ?_ ?_
+          · simp [hmx]
+          · simp [clientCS]
+          · intro j hj; simp [hmx]; omega
+        · exact h.r.frameDestroy hci hd rfl hw.1 hw.2 (Or.inl rfl) rfl rfl
+            (by cases ret <;> simp only [hpc, phaseOk] at hph ⊢ <;> exact hph) h.r.exitFlag.1 h.r.runInv
+      · cases hs
+    | dcbBody op ret =>
       simp only [hpc] at hs
       injection hs with hs; subst hs
       simp only [cwfOk, hpc] at hw
       have hd : s.destroyer = some (i + 1) := h.r.dIn i c hci (by simp [hpc, inDestroy])
       have hph := h.r.dPhase i c hd hci
-      simp only [hpc, phaseOk] at hph
-      refine ⟨h.t.frameClient hci rfl rfl rfl (by simp [pend, hpc]) rfl rfl rfl rfl, ?_, ?_, h.k.frame rfl rfl rfl⟩
-      · exact h.m.frameClientSame hci rfl rfl rfl h.m.cpy rfl rfl (by simp [hpc, clientCS])
-      · exact h.r.frameDestroy hci hd hw rfl hw.1 hw.2 (Or.inr rfl) rfl rfl
-          (by simp [phaseOk, qEmpty, iEmpty] at hph ⊢; exact ⟨hph.2.1, hph.2.2.1, hph.2.2.2⟩) h.r.exitFlag.1
+      have hsp : schedTasks c.prog = [] := by rw [hw.2]; rfl
+      have hpe : pend c = op.target := by simp [pend, hpc, hsp]
+      have h0 : ∀ t ∈ op.target, s.scheduled.count t = 0 := by
+        intro t ht
+        have := hP.cntSched t
+        have h2 := count_le_flatMap pend t hci
+        rw [hpe] at h2
+        have := List.count_pos_iff.mpr ht
+        simp only [pendAll, clientPend, List.count_append] at *; omega
+      have hset := clientPend_set (s' := { s with clients := s.clients.set i { c with pc := CPc.dcbUnlock ret } }) hci rfl
+      refine ⟨?_, ?_, ?_, ?_, ?_⟩
+      · exact (apiBody_T hT op h0).frame rfl rfl rfl rfl rfl rfl (Nat.le_refl _) (fun e => e)
+      · refine hP.push op.target (by simp [apiBody_scheduled]) (by simp) (by simp) ?_ ?_
+        · intro a; have := hset a; rw [hpe] at this
+          simp only [pend, hsp, List.append_nil, List.count_nil, clientPend, apiBody_clients, apiBody_st] at this ⊢; omega
+        · intro a; have := hset a; rw [hpe] at this
+          simp only [pend, hsp, List.append_nil, List.count_nil, clientPend, apiBody_clients] at this ⊢; omega
+      · exact h.m.frameClientSame (c' := { c with pc := CPc.dcbUnlock ret }) hci (by simp) (by simp) (by simp)
+          (by simpa using h.m.cpy) (by simp) (by simp) (by simp [hpc, clientCS])
+      · refine h.r.frameDestroy (c' := { c with pc := CPc.dcbUnlock ret }) hci hd (by simp) hw.1 hw.2 (Or.inl rfl)
+          (by simp) (by simp) ?_ (by simpa using h.r.exitFlag.1) (by simpa using h.r.runInv)
+        cases ret <;> simp only [hpc, phaseOk, joined] at hph ⊢ <;> simpa using hph
+      · exact (apiBody_K h.k op).frame (by simp [recs]) (by simp) (by simp)
+    | dcbUnlock ret =>
+      simp only [hpc] at hs
+      injection hs with hs; subst hs
+      simp only [cwfOk, hpc] at hw
+      have hd : s.destroyer = some (i + 1) := h.r.dIn i c hci (by simp [hpc, inDestroy])
+      have hph := h.r.dPhase i c hd hci
+      have hmx : s.mutex = some (i + 1) := hmC.mp (by simp [hpc, clientCS])
+      refine ⟨h.t.frame rfl rfl rfl rfl rfl rfl (Nat.le_refl _) (fun e => e),
+        h.p.frameClient hci rfl rfl (by simp [pend, hpc]) rfl rfl rfl, ?_, ?_, h.k.frame rfl rfl rfl⟩
+      · refine h.m.frameClient hci rfl rfl rfl h.m.cpy rfl ?_ ?_ ?_
+        · simp [hmx]
+        · simp [clientCS]
+        · intro j hj; simp [hmx]; omega
+      · exact h.r.frameDestroy hci hd rfl hw.1 hw.2 (Or.inl rfl) rfl rfl
+          (by cases ret <;> simp only [hpc, phaseOk] at hph ⊢ <;> exact hph) h.r.exitFlag.1 h.r.runInv
+    | dcbNotify ret =>
+      simp only [hpc] at hs
+      injection hs with hs; subst hs
+      simp only [cwfOk, hpc] at hw
+      have hd : s.destroyer = some (i + 1) := h.r.dIn i c hci (by simp [hpc, inDestroy])
+      have hph := h.r.dPhase i c hd hci
+      refine ⟨h.t.frame ?_ (by simp) (by simp) (by simp) (by simp) (by simp) (by simp) ?_,
+        h.p.frameClient (c' := { c with pc := ret.pc }) hci (by simp) (by simp)
+          (by cases ret <;> simp [pend, hpc, DRet.pc]) (wake_pcPendS s) (by simp) (by simp),
+        ?_, ?_, h.k.frame ?_ (by simp) (by simp)⟩
+      · simp [places, handOver, recs, innerTasks, logTasks]
+      · intro hne e; exact hne ((wake_exited_iff s).mpr e)
+      · exact h.m.frameClientSame (c' := { c with pc := ret.pc }) hci (by simp) (by simp) (by simp) (cpyOk_wake s h.m.cpy)
+          (wake_schedCS s) (by simp) (by cases ret <;> simp [hpc, clientCS, DRet.pc])
+      · refine h.r.frameDestroy (c' := { c with pc := ret.pc }) hci hd (by simp) hw.1 hw.2
+          (Or.inl (by cases ret <;> rfl)) (by simp) (by simp) ?_ ?_ ?_
+        · cases ret <;> simp only [hpc, phaseOk, joined, DRet.pc] at hph ⊢
+          · refine ⟨⟨by simpa using hph.1.1, (wake_exited_iff s).mpr hph.1.2⟩, by simpa using hph.2.1, ?_⟩
+            intro hm; simp [hph.2.2] at hm
+          · refine ⟨⟨by simpa using hph.1.1, (wake_exited_iff s).mpr hph.1.2⟩, by simpa using hph.2.1, ?_⟩
+            intro hm; simp [hph.2.2] at hm
+        · intro he; simp only [wake_shouldExit]; exact h.r.exitFlag.1 (wake_exited s he)
+        · rw [wake_runningPhase]; simp only [wake_sweeping, wake_inner]; exact h.r.runInv
+      · simp [recs]
 
 end AwsVerif.Proofs.C08
